@@ -448,12 +448,18 @@ func c04(c *Ctx) {
 				r := assignRHS(n, isQ)
 				return r != nil && isAppendTo(info, r, isQ)
 			}))
-			drops := toSet(g.Match(func(n ast.Node) bool {
+			// a drop is counted directly or through a helper that counts on every path (e.g. count + log once)
+			drops := toSet(g.Match(ix.mustEffect(fn, func(n ast.Node) bool {
 				if s, ok := n.(*ast.IncDecStmt); ok && s.Tok == token.INC && isField(info, s.X, fDrop) {
 					return true
 				}
+				if s, ok := n.(*ast.AssignStmt); ok && s.Tok == token.ADD_ASSIGN && len(s.Lhs) == 1 && isField(info, s.Lhs[0], fDrop) {
+					if v, isC := constInt(info, s.Rhs[0]); isC && v == 1 {
+						return true
+					}
+				}
 				return false
-			}))
+			})))
 			evicts := toSet(g.Match(func(n ast.Node) bool {
 				r := assignRHS(n, isQ)
 				if r == nil {
@@ -594,6 +600,15 @@ func c04(c *Ctx) {
 		})
 		isLimit := func(e ast.Expr) bool {
 			return (limitVar != nil && sameVar(info, e, limitVar)) || isField(info, e, fL)
+		}
+		// return-form: X.Attributes, X.DroppedAttributeCount = helper(limit, attrs) with the cap logic in a pure helper
+		if h, ok := capHelperCall(ix, fn, fA, fD, isLimit); ok {
+			zeroOK, overOK, restOK, why := capReturnForm(ix, h)
+			c.Check(overOK, "R5", "sdk/trace|"+spec.fn+"|len(Attributes) > limit ⇒ dropped = len − limit, then [:limit]", at(ix.M, fn.Pos()), "through "+h.Name+": returns (attrs[:limit], len(attrs) − limit)",
+				"cap arm missing or wrong in "+h.Name+" "+why)
+			c.Check(zeroOK && restOK, "R5", "sdk/trace|"+spec.fn+"|limit == 0 ⇒ dropped = len, then emptied", at(ix.M, fn.Pos()), "through "+h.Name+": returns (nil, len(attrs)); otherwise (attrs, 0)",
+				"cap arm missing or wrong in "+h.Name+" "+why)
+			continue
 		}
 		if limitVar == nil && len(nodesIn(fn, func(n ast.Node) bool { e, ok := n.(ast.Expr); return ok && isField(info, e, fL) })) == 0 {
 			c.Violation("R5", "sdk/trace|"+spec.fn+"|limit source", at(ix.M, fn.Pos()), "the cap is not taken from SpanLimits."+spec.limitField)
@@ -932,4 +947,177 @@ func lookupConstIn(m *Module, path, name string) *types.Const {
 	}
 	k, _ := p.Types.Scope().Lookup(name).(*types.Const)
 	return k
+}
+
+// capHelperCall recognises, in fn, the statement `X.Attributes, X.DroppedAttributeCount = h(limit, attrs)` (either argument order)
+// with h a declared function of the package, and returns h.
+func capHelperCall(ix *PkgIndex, fn *FuncInfo, fA, fD *types.Var, isLimit func(ast.Expr) bool) (*FuncInfo, bool) {
+	info := ix.Pkg.TypesInfo
+	var h *FuncInfo
+	inspectNoLit(fn.Body(), func(n ast.Node) bool {
+		as, ok := n.(*ast.AssignStmt)
+		if !ok || len(as.Lhs) != 2 || len(as.Rhs) != 1 {
+			return true
+		}
+		call, ok := unparen(as.Rhs[0]).(*ast.CallExpr)
+		if !ok || len(call.Args) != 2 {
+			return true
+		}
+		d := ix.declByObj(callee(info, call))
+		if d == nil {
+			return true
+		}
+		// results: the slice goes to Attributes, the int to DroppedAttributeCount
+		res := d.Obj.Type().(*types.Signature).Results()
+		if res.Len() != 2 {
+			return true
+		}
+		okLHS := true
+		for i := 0; i < 2; i++ {
+			_, isSlice := res.At(i).Type().Underlying().(*types.Slice)
+			if isSlice && !isField(info, as.Lhs[i], fA) {
+				okLHS = false
+			}
+			if !isSlice && !isField(info, as.Lhs[i], fD) {
+				okLHS = false
+			}
+		}
+		// the int argument is the limit
+		okArg := false
+		for _, a := range call.Args {
+			if isLimit(a) {
+				okArg = true
+			}
+		}
+		if okLHS && okArg {
+			h = d
+		}
+		return true
+	})
+	return h, h != nil
+}
+
+// capReturnForm checks a helper func(limit int, attrs []T) (kept []T, dropped int) (parameters and results in either order):
+// on the limit == 0 edge every return is (empty, len(attrs)); on the len(attrs) > limit edge every return is
+// (attrs[:limit], len(attrs) − limit); every other return is (attrs, 0); attrs and limit are not assigned in the helper.
+func capReturnForm(ix *PkgIndex, h *FuncInfo) (zeroOK, overOK, restOK bool, why string) {
+	info := ix.Pkg.TypesInfo
+	sig := h.Obj.Type().(*types.Signature)
+	var lim, as *types.Var
+	for i := 0; i < sig.Params().Len(); i++ {
+		p := sig.Params().At(i)
+		if _, isSlice := p.Type().Underlying().(*types.Slice); isSlice {
+			as = p
+		} else {
+			lim = p
+		}
+	}
+	if lim == nil || as == nil || sig.Params().Len() != 2 || sig.Results().Len() != 2 {
+		return false, false, false, "unexpected signature"
+	}
+	si := 0 // index of the slice result
+	if _, isSlice := sig.Results().At(0).Type().Underlying().(*types.Slice); !isSlice {
+		si = 1
+	}
+	di := 1 - si
+	g := ix.FG(h)
+	// parameters are not assigned
+	assigned := false
+	inspectNoLit(h.Body(), func(n ast.Node) bool {
+		if s, ok := n.(*ast.AssignStmt); ok {
+			for _, l := range s.Lhs {
+				if sameVar(info, l, lim) || sameVar(info, l, as) {
+					assigned = true
+				}
+			}
+		}
+		return true
+	})
+	if assigned {
+		return false, false, false, "a parameter is re-assigned"
+	}
+	isAs := func(e ast.Expr) bool { return sameVar(info, e, as) }
+	isLim := func(e ast.Expr) bool { return sameVar(info, e, lim) }
+	classify := func(rs *ast.ReturnStmt) string {
+		if len(rs.Results) != 2 {
+			return "?"
+		}
+		s, d := unparen(rs.Results[si]), unparen(rs.Results[di])
+		if isEmptySliceExpr(info, s) && isLenOf(info, d, isAs) {
+			return "zero"
+		}
+		if se, ok := s.(*ast.SliceExpr); ok && isAs(se.X) && se.Low == nil && se.High != nil && isLim(se.High) && se.Max == nil {
+			if be, ok := d.(*ast.BinaryExpr); ok && be.Op == token.SUB && isLenOf(info, be.X, isAs) && isLim(be.Y) {
+				return "over"
+			}
+		}
+		if isAs(s) {
+			if v, isC := constInt(info, d); isC && v == 0 {
+				return "rest"
+			}
+		}
+		return "?"
+	}
+	zeroEdge := func(e *GEdge) bool {
+		return edgeImplies(e, func(cnd ast.Expr, pol int) bool {
+			l, op, r, ok := cmpNorm(cnd, pol)
+			if !ok || op != token.EQL {
+				return false
+			}
+			if v, isC := constInt(info, r); isC && v == 0 && isLim(l) {
+				return true
+			}
+			v, isC := constInt(info, l)
+			return isC && v == 0 && isLim(r)
+		})
+	}
+	overEdge := func(e *GEdge) bool {
+		return edgeImplies(e, func(cnd ast.Expr, pol int) bool {
+			l, op, r, ok := cmpNorm(cnd, pol)
+			if !ok {
+				return false
+			}
+			return (isLenOf(info, l, isAs) && isLim(r) && op == token.GTR) || (isLim(l) && isLenOf(info, r, isAs) && op == token.LSS)
+		})
+	}
+	kinds := map[*GNode]string{}
+	for _, x := range g.Nodes {
+		if rs, ok := x.N.(*ast.ReturnStmt); ok {
+			kinds[x] = classify(rs)
+		}
+	}
+	under := func(edge func(*GEdge) bool, want string) (bool, map[*GNode]bool) {
+		n, good := 0, true
+		all := map[*GNode]bool{}
+		for _, x := range g.Nodes {
+			for _, e := range x.Succs {
+				if !edge(e) {
+					continue
+				}
+				n++
+				seen, _ := g.ReachFromEdge(e, nil)
+				for y := range seen {
+					if k, isRet := kinds[y]; isRet {
+						all[y] = true
+						if k != want {
+							good = false
+							why = "a return under that condition is not the specified pair"
+						}
+					}
+				}
+			}
+		}
+		return n > 0 && good, all
+	}
+	var zs, os map[*GNode]bool
+	zeroOK, zs = under(zeroEdge, "zero")
+	overOK, os = under(overEdge, "over")
+	restOK = true
+	for x, k := range kinds {
+		if !zs[x] && !os[x] && k != "rest" {
+			restOK = false
+			why = "a return outside both conditions does not hand the attributes back unchanged with count 0"
+		}
+	}
+	return
 }
